@@ -444,10 +444,13 @@ func (L *ledger) addAEAD(key, ct []byte) {
 	L.aead = append(L.aead, encBytes(key)+" "+encBytes(ct[:12])+" "+encBytes(ct[12:])+" "+res)
 }
 
-// rsa key ids: 1 = sp, 2 = sp2
+// rsa key ids: 1 = sp, 2 = sp2, 3 = rsa2047 (a modulus whose bit length is not a multiple of eight)
 func (c *Ctx) rsaKey(id int) *rsa.PrivateKey {
 	if id == 2 {
 		return c.key("sp2").RSA()
+	}
+	if id == 3 {
+		return c.key("rsa2047").RSA()
 	}
 	return c.key("sp").RSA()
 }
@@ -800,6 +803,42 @@ func (c *Ctx) genC10() {
 						continue
 					}
 					c.xdecrypt(xKey{kind: "r", id: 1}, c.layersOf(el), p, "transport:"+tag)
+					// "every key": the same under a key whose modulus is 2047 bits long
+					if r == 0 {
+						var el3 *etree.Element
+						res3 := safely(func() string {
+							e, err := enc.Encrypt(c.key("rsa2047").Cert, p, nil)
+							if err != nil {
+								return "err " + pct(err.Error())
+							}
+							el3 = e
+							return "ok"
+						})
+						if el3 == nil {
+							c.emitOneWay("encfail", []string{encStr(tag + "/rsa2047")}, res3, "key=encrypt-fails:"+tag+"/rsa2047 Encrypt fails: "+res3)
+						} else {
+							// (direct oracle: the package decrypts what it encrypted, after a serialise / parse generation)
+							back := safely(func() string {
+								doc := etree.NewDocument()
+								doc.SetRoot(el3)
+								b, err := doc.WriteToBytes()
+								if err != nil {
+									return "err " + pct(err.Error())
+								}
+								doc2 := etree.NewDocument()
+								if err := doc2.ReadFromBytes(b); err != nil {
+									return "err " + pct(err.Error())
+								}
+								return outBytes(xmlenc.Decrypt(c.key("rsa2047").RSA(), doc2.Root()))
+							})
+							orc := ""
+							if back != "ok "+encBytes(p) {
+								orc = "key=xmlenc-roundtrip:rsa2047:" + tag + " Decrypt(Encrypt(p)) under a 2047-bit RSA key: " + back
+							}
+							c.count("c10-odd-modulus", tag)
+							c.emitOneWay("rt2047", []string{encStr(tag), encBytes(p)}, back, orc)
+						}
+					}
 				}
 			}
 		}
